@@ -45,6 +45,8 @@ pub enum Kind {
     Config,
     /// C01 C02 C06 C08 C17: history invariants, inline and at quiescence
     Invariants,
+    /// C05 (C19): the real cleanup ticker reclaims expired entries while traffic continues
+    Reclaim,
 }
 
 #[derive(Clone, Debug, PartialEq, Eq, Serialize, Deserialize, Hash)]
@@ -636,6 +638,9 @@ fn run_inner(case: &StressCase) -> SResult {
         history: Mutex::new(Vec::new()),
         clears: AtomicU32::new(0),
     });
+    if case.kind == Kind::Reclaim {
+        return run_reclaim(case, api, &cb);
+    }
     let n = case.threads.len();
     let mut progress_init = Progress::new(n + 1);
     Arc::get_mut(&mut progress_init).unwrap().workers_base = w_before;
@@ -719,7 +724,7 @@ fn run_inner(case: &StressCase) -> SResult {
             let c = &case.cfg;
             res.nontrivial = c.num_counters < 8 || !c.num_counters.is_power_of_two() || c.buffer_size <= 2 || c.buffer_items <= 1 || c.max_cost <= 1;
         }
-        Kind::Invariants => {}
+        Kind::Invariants | Kind::Reclaim => {}
     }
     // ---- post-run checks
     let post = progress.clone();
@@ -1470,6 +1475,21 @@ pub fn stress_strategy(kind: Kind, async_pct: u32) -> BoxedStrategy<StressCase> 
                 proptest::collection::vec(proptest::collection::vec(op, 10..80), 1..=2).prop_map(move |threads| StressCase { kind, exec, cfg: cfg.clone(), threads, perturb, drop_only: false })
             })
             .boxed(),
+        Kind::Reclaim => (
+            exec_strategy(async_pct),
+            proptest::sample::select(vec![5u64, 10, 20, 40]),
+            proptest::collection::vec((0u32..6, 1i64..3, prop_oneof![Just(1u32), 1u32..2500]), 1..5),
+            any::<bool>(),
+        )
+            .prop_map(move |(exec, cleanup_ms, ins, metrics)| StressCase {
+                kind,
+                exec,
+                cfg: SCfg { num_counters: 100, max_cost: 1 << 40, buffer_size: 64, buffer_items: 8, metrics, ignore_internal_cost: true, cleanup_ms },
+                threads: vec![ins.into_iter().map(|(k, cost, ttl_ms)| SOp::Insert { k, cost, ttl_ms }).collect()],
+                perturb: 0,
+                drop_only: false,
+            })
+            .boxed(),
         Kind::Invariants => (
             exec_strategy(async_pct),
             proptest::sample::select(vec![1usize, 2, 4, 16, 64]),
@@ -1554,4 +1574,116 @@ pub fn worker_main() -> i32 {
         }
     }
     0
+}
+
+/// Reclaim kind: entries with TTLs are inserted, the process-wide virtual clock is moved past their
+/// deadlines and bucket boundaries, and client traffic keeps flowing (gaps far below the cleanup
+/// interval). The periodic cleanup must reclaim them although the processor is never idle.
+fn run_reclaim(case: &StressCase, api: Box<dyn Api>, cb: &RecTs) -> SResult {
+    let tick = Duration::from_millis(case.cfg.cleanup_ms.max(1));
+    let mut serial = 0u32;
+    let mut expiring: Vec<Val> = Vec::new();
+    // phase 1: the entries that will expire (script of thread 0: Insert ops with ttl)
+    for op in case.threads.first().map(|t| t.as_slice()).unwrap_or(&[]) {
+        if let SOp::Insert { k, cost, ttl_ms } = op {
+            serial += 1;
+            let v = Val { key: *k, serial, tag: 1 };
+            if api.insert(*k as u64, v, *cost, Duration::from_millis((*ttl_ms).max(1) as u64)) == Ok(true) {
+                expiring.push(v);
+            }
+        }
+    }
+    let mut ok = false;
+    for _ in 0..2000 {
+        if api.wait().is_ok() {
+            ok = true;
+            break;
+        }
+        std::thread::sleep(Duration::from_micros(200));
+    }
+    if !ok {
+        return SResult { status: "busy".into(), msg: "wait() never succeeded during set-up".into(), ..Default::default() };
+    }
+    let resident: Vec<Val> = expiring.iter().copied().filter(|v| api.get(v.key as u64) == Some(*v)).collect();
+    if resident.is_empty() {
+        let mut r = SResult::ok();
+        r.classes.push("nothing_admitted".into());
+        return r;
+    }
+    // phase 2: every deadline and its bucket boundary is passed (virtual time)
+    clock::advance_global(5_000 * 1_000_000);
+    // phase 3: traffic on other keys with gaps of ~tick/8, until everything is reclaimed
+    let start = Instant::now();
+    let budget = Duration::from_millis(3000).max(tick * 60);
+    let gap = tick / 8;
+    let mut i = 0u32;
+    let mut reclaimed_after: Option<Duration> = None;
+    while start.elapsed() < budget {
+        i += 1;
+        serial += 1;
+        let k = 10_000 + (i % 7);
+        let v = Val { key: k, serial, tag: 1 };
+        match i % 4 {
+            0 => {
+                let _ = api.insert(k as u64, v, 1, Duration::ZERO);
+            }
+            1 => {
+                let _ = api.get(k as u64);
+            }
+            2 => {
+                let _ = api.remove(k as u64);
+            }
+            _ => {
+                let _ = api.wait();
+            }
+        }
+        let t0 = Instant::now();
+        while t0.elapsed() < gap {
+            std::hint::spin_loop();
+        }
+        if i % 8 == 0 {
+            let log = cb.log.lock();
+            let all = resident.iter().all(|v| log.iter().any(|(_, e)| matches!(e, Ev::Evict(x, ..) if x == v)));
+            drop(log);
+            if all {
+                reclaimed_after = Some(start.elapsed());
+                break;
+            }
+        }
+    }
+    match reclaimed_after {
+        Some(d) => {
+            // exactly once each, and no longer counted
+            let log = cb.log.lock();
+            for v in resident.iter() {
+                let n = log.iter().filter(|(_, e)| e.val() == Some(*v)).count();
+                if n != 1 {
+                    return SResult::violation(&["C05", "C08"], "reclaim_callback_count", format!("expired value {} was handed to callbacks {} times", v, n));
+                }
+            }
+            drop(log);
+            let snap = api.snapshot();
+            for v in resident.iter() {
+                if snap.entries.iter().any(|e| e.value == *v) || snap.costs.iter().any(|(k, _)| *k == v.key as u64) {
+                    return SResult::violation(&["C05"], "reclaim_incomplete", format!("expired value {} was reported evicted but is still resident or charged", v));
+                }
+            }
+            let mut r = SResult::ok();
+            r.nontrivial = true;
+            r.classes.push(format!("reclaimed_within_{}_ticks", (d.as_millis() as u64 / case.cfg.cleanup_ms.max(1)).min(99)));
+            r
+        }
+        None => SResult::violation(
+            &["C05"],
+            "not_reclaimed_under_traffic",
+            format!(
+                "{} expired entries (deadlines and bucket boundaries passed {} ms of wall-clock ago) were not reclaimed although the cleanup interval is {} ms; client traffic kept flowing with gaps of {:?} ({:?})",
+                resident.len(),
+                start.elapsed().as_millis(),
+                case.cfg.cleanup_ms,
+                gap,
+                case.exec
+            ),
+        ),
+    }
 }
